@@ -80,8 +80,24 @@ def _page_step_resets_bank_state(ctx, rep):
     rep.ob('walk.page-step-advances', 'a page step advances the page and the page offset', page_vars.get('page') == 'aug' and page_vars.get('page_offset') == 'aug', repr(page_vars), ctx.where(pages[0]))
 
 
+def _text_block_is_bytewise(ctx, rep):
+    """Text-mode video memory has unbacked addresses between the pages.  Block access = byte access repeated, so
+    the per-address loop of TextMemoryMapper.get_memory / set_memory must carry on after an address it cannot map
+    (no break / return inside the loop; the IndexError handler only skips)."""
+    for meth in ('get_memory', 'set_memory'):
+        fn = ctx.fn(FB + ':TextMemoryMapper.' + meth)
+        loops = [n for n in fn.body if isinstance(n, ast.For)]
+        ok = len(loops) == 1
+        exits = [x for x in (own_nodes(loops[0]) if ok else []) if isinstance(x, (ast.Break, ast.Return))]
+        handlers = [h for t in (own_nodes(loops[0]) if ok else []) if isinstance(t, ast.Try) for h in t.handlers]
+        rep.ob('text.block-equals-bytes', 'TextMemoryMapper.%s handles every address of the block independently' % meth,
+               ok and not exits and len(handlers) == 1 and norm(handlers[0].type) == 'IndexError' and [norm(x) for x in handlers[0].body] == ['pass'],
+               'the loop stops at the first unmapped address (%s): the rest of the block, e.g. the next page, is not transferred' % [type(x).__name__ for x in exits], ctx.where(fn))
+
+
 def check(ctx, rep):
     _page_step_resets_bank_state(ctx, rep)
+    _text_block_is_bytewise(ctx, rep)
     for cname, ipb in (('CGAMemoryMapper', 'self._ppb'), ('EGAMemoryMapper', '8'), ('Tandy6MemoryMapper', None)):
         cls = ctx.cls('%s:%s' % (FB, cname))
         m = class_methods(cls)
@@ -158,6 +174,8 @@ def variants(ctx):
         return lambda tree: f(mu.find_def(tree, f_name))
 
     return [
+        Va('text-block-stops-at-gap', 'break', FB,
+           lambda tree: mu.replace_stmt(mu.find_def(tree, 'TextMemoryMapper.set_memory'), lambda st: isinstance(st, ast.Pass), 'break'), expect='text.block-equals'),
         Va('page-step-keeps-start-row', 'break', FB,
            lambda tree: mu.replace_stmt(mu.find_def(tree, 'GraphicsMemoryMapper._walk_memory'), mu.text_is('y, start_y = (0, 0)'), 'y = 0'), expect='walk.page-step-resets'),
         Va('cga-writer-other-density', 'break', FB,
